@@ -1011,7 +1011,25 @@ class LockWorld:
                     kinds=dict(self.kinds), executions=self.nexec, sample=self.assemble_ops()[:60], ops=self.assemble_ops())
 
 
+def _pin_to_one_cpu():
+    """Only one thread of a simulation process ever runs at a time (baton passing), and this world hands the baton
+    over ~100 times per execution.  Letting the kernel spread those threads over the cores makes every hand-over a
+    cross-core wake-up (measured: 2.4x the wall time, sys > user).  The run server and the children it forks are
+    therefore pinned to one CPU, chosen by pid.  No effect on what a run computes.  VERIF_PIN=0 turns it off."""
+    import os
+
+    if os.environ.get('VERIF_PIN', '1') == '0':
+        return
+    try:
+        cpus = sorted(os.sched_getaffinity(0))
+        if len(cpus) > 1:
+            os.sched_setaffinity(0, {cpus[os.getpid() % len(cpus)]})
+    except (AttributeError, OSError):
+        pass
+
+
 def warmup():
+    _pin_to_one_cpu()
     boot.setup()
     import dawgie.db.shelve.comms  # noqa
     import dawgie.db.lockview  # noqa
